@@ -920,7 +920,35 @@ def own_compose(ctx: Ctx) -> RuleResult:
     tbl = dotted(xd[0].targets[0])
     gen = xd[0].value.args[0]
     val = gen.elt.elts[1] if isinstance(gen, ast.GeneratorExp) and isinstance(gen.elt, ast.Tuple) else None
-    okd = isinstance(val, ast.Call) and dotted(val.func) == "deepcopy"
+    def _deep(e: Optional[ast.AST]) -> Optional[bool]:
+        """True: a deep copy; False: recognisably shared / shallow; None: cannot tell."""
+        if isinstance(e, ast.Call) and dotted(e.func) == "deepcopy":
+            return True
+        if isinstance(e, ast.Call) and dotted(e.func) in ("copy", "copy.copy"):
+            return False
+        if isinstance(e, (ast.Subscript, ast.Name, ast.Attribute)):
+            return False
+        if isinstance(e, ast.Call) and isinstance(e.func, ast.Name):
+            g = ctx.P.nested(f, e.func.id)
+            if g is not None and len(g.node.args.args) >= 1:
+                p0 = g.node.args.args[0].arg
+                rets = [x for x in iter_own_nodes(g.node) if isinstance(x, ast.Return) and x.value is not None]
+                if len(rets) == 1 and isinstance(rets[0].value, ast.Name):
+                    src = [x for x in iter_own_nodes(g.node) if isinstance(x, ast.Assign) and dotted(x.targets[0]) == rets[0].value.id]
+                    if len(src) == 1 and isinstance(src[0].value, ast.Call) and dotted(src[0].value.func) == "deepcopy" \
+                            and src[0].value.args and dotted(src[0].value.args[0]) == p0:
+                        return True
+                    if len(src) == 1 and isinstance(src[0].value, ast.Call) and dotted(src[0].value.func) in ("copy", "copy.copy") \
+                            and src[0].value.args and dotted(src[0].value.args[0]) == p0:
+                        return False
+                    if not src and rets[0].value.id == p0:
+                        return False
+                if len(rets) == 1 and isinstance(rets[0].value, ast.Call) and dotted(rets[0].value.func) == "deepcopy":
+                    return True
+        return None
+    okd = _deep(val)
+    if okd is None:
+        raise Undecided(f"compose: how the nodes of the composed DAG are copied is not recognised: {norm_src(val) if val is not None else None}")
     r.ob(okd, {"copied nodes": norm_src(val) if val is not None else None})
     if not okd:
         r.violate("BaseDAG.compose: nodes of the original DAG are shared with (not deep-copied into) the composed DAG", f.loc(xd[0]),
